@@ -7,6 +7,8 @@ equals the relative pose before at map(m); everything outside the operated subtr
 byte-identical; the operated object's own path follows the path model; the field of the collection
 seen by its own sensor obeys the same index relation.
 """
+import itertools
+
 import numpy as np
 
 from mc import common
@@ -412,6 +414,120 @@ def bfs(trees, Ns, levels, state_cap, idents=(False, True)):
                 cap_hit=cap_hit), viols, samples
 
 
+# ------------------------------------------------------------------ extras: shared input objects, small offsets
+SHARED_OPS = ["move_x", "move_y", "rot_x", "rot_y", "moveC", "rotC"]
+SMALL_OFFSETS = [1e-3, 1e-6, 1e-9]
+SMALL_CENTRES = [(0.0, 0.0, 0.0), (0.3, -0.2, 0.1), (25.0, 10.0, -40.0)]
+SMALL_OPS = ["rot_s", "rot_v", "angax", "ori_set", "rotvec", "move_then_rot"]
+
+
+def extra_tasks(tier):
+    tasks = []
+    for tree in TREES:
+        names = names_of(tree)
+        for x, y in itertools.permutations(names, 2):
+            for what in ("position", "orientation"):
+                for op in SHARED_OPS:
+                    tasks.append({"extra": "shared", "tree": tree, "x": x, "y": y, "what": what, "op": op})
+    for tree in TREES:
+        for off in SMALL_OFFSETS:
+            for ci in range(len(SMALL_CENTRES)):
+                for op in SMALL_OPS:
+                    for target in [n for n in names_of(tree) if n in "CDE"]:
+                        tasks.append({"extra": "small", "tree": tree, "offset": off, "centre": ci, "op": op, "target": target})
+    return tasks
+
+
+def run_extra(c):
+    from scipy.spatial.transform import Rotation as R
+
+    tree = c["tree"]
+    names = names_of(tree)
+    if c["extra"] == "shared":
+        # ONE input object (a float path array / a Rotation of length 2) is assigned to two members of a tree; afterwards one of
+        # them (or the root) is operated on. Everything must be as in a twin tree whose members were given separate copies.
+        def scenario(shared):
+            objs = build(tree, init_state(tree, 2))
+            arr = np.array([(0.4, 0.1, -0.2), (0.5, 0.3, -0.1)])
+            rot = R.from_rotvec([(0.1, 0.2, -0.3), (0.3, -0.1, 0.2)])
+            val = arr if c["what"] == "position" else rot
+            for n in (c["x"], c["y"]):
+                v = val if shared else (val.copy() if c["what"] == "position" else R.from_quat(val.as_quat()))
+                setattr(objs[n], c["what"], v)
+            who = {"move_x": c["x"], "move_y": c["y"], "rot_x": c["x"], "rot_y": c["y"], "moveC": "C", "rotC": "C"}[c["op"]]
+            if c["op"].startswith("move"):
+                objs[who].move((0.25, -0.5, 0.125))
+            else:
+                objs[who].rotate_from_angax(35, (1, 2, 3), anchor=None)
+            return {n: read(objs[n]) for n in names}, (arr, rot)
+        try:
+            got, (arr, rot) = scenario(True)
+            want, _ = scenario(False)
+        except Exception as e:
+            return [f"raised {type(e).__name__}: {e}"[:160]]
+        problems = []
+        for n in names:
+            if got[n][0].shape != want[n][0].shape or np.max(np.abs(got[n][0] - want[n][0])) > TOL or np.max(np.abs(got[n][1] - want[n][1])) > TOL:
+                problems.append(f"member {n} differs from the twin tree built with separate copies of the input (shared {c['what']} given to {c['x']} and {c['y']}, then {c['op']})")
+                break
+        if not np.array_equal(arr, np.array([(0.4, 0.1, -0.2), (0.5, 0.3, -0.1)])):
+            problems.append("the caller's array was changed")
+        return problems
+    # small offsets: children within 1e-3 ... 1e-9 of the collection position, collection at / away from the origin
+    off, centre = c["offset"], np.array(SMALL_CENTRES[c["centre"]])
+    st = {}
+    for k, n in enumerate(names):
+        d = np.array((0.6 + 0.1 * k, -0.3 * (k % 2) + 0.2, 0.5 - 0.15 * k)) * off
+        st[n] = ((centre + (d if n != "C" else 0.0))[None, :], Rot((0.1 * k, -0.2, 0.05 * k)).as_matrix()[None, :, :])
+    objs = build(tree, st)
+    t = objs[c["target"]]
+    sub = subtree(tree, c["target"])
+    before = {n: read(objs[n]) for n in names}
+    rv = np.array((0.4, -0.7, 0.5))
+    try:
+        if c["op"] == "rot_s":
+            t.rotate(Rot(rv))
+        elif c["op"] == "rot_v":
+            t.rotate(Rot([rv, 2 * rv]), start=0)
+        elif c["op"] == "angax":
+            t.rotate_from_angax(77, (1, -2, 0.5))
+        elif c["op"] == "rotvec":
+            t.rotate_from_rotvec(rv, degrees=False)
+        elif c["op"] == "ori_set":
+            t.orientation = Rot(rv)
+        else:
+            t.move(np.array((0.5, 0.25, -0.125)) * off)
+            t.rotate(Rot(rv))
+    except Exception as e:
+        return [f"raised {type(e).__name__}: {e}"[:160]]
+    problems = []
+    Pt, Mt = read(t)
+    idx = np.zeros(len(Pt), int)
+    for d in sub:
+        Pd, Md = read(objs[d])
+        if len(Pd) != len(Pt):
+            problems.append(f"descendant {d} path length {len(Pd)} != {len(Pt)}")
+            continue
+        rp1, rm1 = rel(Pt, Mt, Pd, Md)
+        rp0, rm0 = rel(*before[c["target"]], *before[d])
+        dp = float(np.max(np.abs(rp1 - rp0[idx])))
+        dm = float(np.max(np.abs(rm1 - rm0[idx])))
+        tol = 1e-9 * off + 4e-16 * 50 * (float(np.max(np.abs(centre))) + 1e-300)
+        if dp > tol or dm > 1e-11:
+            problems.append(f"relative pose of {d} changed by {dp:.3g} (offset {off:g}, tolerance {tol:.3g}) dori={dm:.3g}")
+            break
+    return problems
+
+
+def work_extra(c):
+    try:
+        return run_extra(c)
+    except Exception as e:
+        import traceback
+
+        return ["HARNESS " + f"{type(e).__name__}: {e} {traceback.format_exc()[-300:]}"]
+
+
 def run(tier, seed):
     if tier == "quick":
         parts = [("depth1-full", bfs(list(TREES), [1, 2, 3], [False], 10 ** 6)),
@@ -422,6 +538,16 @@ def run(tier, seed):
                  ("depth3-reduced-nested", bfs(["nested2"], [1, 2], [True, True, True], 10 ** 7))]
     viols = [v for _, (_, vs, _) in parts for v in vs]
     samples = [s for _, (_, _, sm) in parts for s in sm]
+    etasks = extra_tasks(tier)
+    harness = []
+    for c, r in zip(etasks, common.pmap(work_extra, etasks)):
+        for p_ in r:
+            if p_.startswith("HARNESS"):
+                harness.append(f"{c}: {p_}")
+                continue
+            key = (f"C10|shared-input|{c['what']}|{c['op']}|differs" if c["extra"] == "shared"
+                   else f"C10|small-offset|{c['offset']:g}|{c['op']}|{p_.split(' ')[0]}-{p_.split(' ')[1]}")
+            viols.append({"key": key, "what": f"{c}: {p_}", "case": {"extra_case": c}, "observed": [p_]})
     states = sum(p[1][0]["states"] for p in parts)
     trans = sum(p[1][0]["transitions"] for p in parts)
     cov = {
@@ -434,15 +560,18 @@ def run(tier, seed):
                 "whose subtree shares its path length; oracle = index-mapped relative pose of every descendant, "
                 "byte-identity outside the subtree, path model for the operated object, own-sensor field",
     }
-    harness = []
+    cov["shared_input_and_small_offset_cases"] = len(etasks)
     if trans < 1000:
         harness.append("vacuous: fewer than 1000 transitions")
-    return {"coverage": cov, "violations": viols, "harness_errors": harness,
+    return {"coverage": cov, "violations": viols, "harness_errors": harness[:5],
             "assumptions": ["ops on a collection are enabled only when all its descendants share its path length "
                             "(the property's precondition)"]}
 
 
 def replay(case):
+    if "extra_case" in case:
+        r = work_extra(case["extra_case"])
+        return {"violated": bool(r) and not r[0].startswith("HARNESS"), "observed": r}
     st = {k: (np.array(v[0]), np.array(v[1])) for k, v in case["state"].items()}
     problems, _, enabled = check_transition(case["tree"], st, case["target"], tuple(case["op"]), False)
     return {"violated": bool(problems), "observed": problems}
